@@ -549,7 +549,7 @@ class Gen:
         g, gat, grt = self.gf(depth - 1)
         if not gat:
             g, gat, grt = self.static(depth - 1, ["S"])
-        n = r.choice([0, 1, 2, 2, 3])
+        n = r.choice([0] + [1, 2, 2, 3] * 4)
         axes, argt = [], []
         for t in gat:
             ax = 0 if (r.random() < 0.7 or not axes or all(a is None for a in axes)) else None
@@ -575,7 +575,7 @@ class Gen:
 
     def scan(self, depth):
         r = self.rng
-        n = r.choice([0, 1, 2, 3])
+        n = r.choice([0] + [1, 2, 3] * 5)
         xt = r.choice(["S", "N"])
         (g, gat, grt), yt = self.kernel(depth - 1, xt)
         if xt == "N":
@@ -597,7 +597,7 @@ class Gen:
         g, gat, grt = self.gf(depth - 1)
         if self.contains(g, ("switch", "mask")) and False:
             pass
-        return ("mask", g), ["B"] + gat, ("M", grt)
+        return ("mask", g), ["B"] + gat, (grt if (isinstance(grt, tuple) and grt[0] == "M") else ("M", grt))   # Mask.build flattens
 
     def dimap(self, depth):
         r = self.rng
@@ -633,7 +633,7 @@ class Gen:
 
     def repeat(self, depth):
         g, gat, grt = self.gf(depth - 1)
-        n = self.rng.choice([0, 1, 2, 3])
+        n = self.rng.choice([0] + [1, 2, 3] * 5)
         return ("repeat", n, g, len(gat)), gat, ("A", n, grt)
 
     def or_else(self, depth):
@@ -647,22 +647,22 @@ class Gen:
 
     def iterate(self, depth):
         g, _, _ = self.stepfn(depth - 1)
-        n = self.rng.choice([0, 1, 2, 3])
+        n = self.rng.choice([0] + [1, 2, 3] * 5)
         return ("iterate", n, g), ["S"], ("A", n + 1, "S")
 
     def iterate_final(self, depth):
         g, _, _ = self.stepfn(depth - 1)
-        n = self.rng.choice([0, 1, 2, 3])
+        n = self.rng.choice([0] + [1, 2, 3] * 5)
         return ("iterate_final", n, g), ["S"], "S"
 
     def accumulate(self, depth):
         g, _, _ = self.static(depth - 1, ["S", "S"], "S")
-        n = self.rng.choice([0, 1, 2, 3])
+        n = self.rng.choice([0] + [1, 2, 3] * 5)
         return ("accumulate", g), ["S", ("A", n, "S")], ("A", n + 1, "S")
 
     def reduce(self, depth):
         g, _, _ = self.static(depth - 1, ["S", "S"], "S")
-        n = self.rng.choice([0, 1, 2, 3])
+        n = self.rng.choice([0] + [1, 2, 3] * 5)
         return ("reduce", g), ["S", ("A", n, "S")], "S"
 
     def masked_iterate_final(self, depth):
